@@ -1,4 +1,13 @@
 """C01 — a returned factorization always multiplies back to the input."""
+# SIZE AUDIT (quick tier), measured on cases('quick', Random(1)): bit length of n handed to factor()
+#   family                      quick max   thorough max  code supports                      boundary classes reached in quick
+#   structured (all selectors)  100         115           selectors: 64 / 128 bits / 500     random sizes: 31..33 and 62..65 bits 15..30 times each (primes of <= 52 bits)
+#   zero-limb (auto, siqs, ecm) 257         257           n <= 500 bits (Uint 1024 bits,     2^64 + d, 2^128 + d, 2^192 + d, 2^256 + d (d < 500, inputs that finish quickly): deterministic;
+#                                                         ZmodN 1..8 words)                  BEFORE: no returned list for any n above 257 bits (product / divisibility of 258..500-bit
+#                                                                                            inputs never judged here: C03 runs them but only looks for crashes) -> ADDED
+# Added: boundary_cases (both tiers, first): composites with 2 or 3 prime factors of exactly 65, 127..129, 191..193, 255..257, 319..321, 383..385,
+# 447..449, 499, 500 bits through ecm (cheap: a 40..46-bit factor), auto on the 64k sizes up to 320 bits; the oracle multiplies the list back.
+import random
 from vlib.pipeline import Case
 from vlib import gen
 from props import factor_common as fc
@@ -10,7 +19,8 @@ AUDIT = "Ymq.Audit.C01"
 THEOREMS = ['Ymq.C01.factor_sound', 'Ymq.C01.factor_no_one', 'Ymq.C01.retain_residue_one', 'Ymq.C01.combineDiv_prod', 'Ymq.C01.combineDiv_no_panic', 'Ymq.C01.factorImpl_prod', 'Ymq.C01.factor_exact', 'Ymq.C01.oracleOK_of_models', 'Ymq.C01.factor_exact_closed', 'Ymq.C01.factor_total_closed']
 PROFILES = ["release", "chk"]
 TIMEOUT = 120.0
-RULE = ("n = product of primes drawn from size classes (tiny..52 bit quick, ..90 bit thorough) in the shapes "
+RULE = ("first, in both tiers, composites with 2 or 3 prime factors of exactly 65, 127..129, 191..193, ..., 447..449, 499, 500 bits (ecm; auto on the 64k sizes); then "
+        "n = product of primes drawn from size classes (tiny..52 bit quick, ..90 bit thorough) in the shapes "
         "semiprime/three/many/prime/prime-power/square-of-composite/p2q/close/fb-factor/smooth-times-prime/repeated, "
         "plus 0,1,2..300; every selector inside its size precondition; preference combinations threads/fb/lf/dbl/isz; "
         "non-trivial = composite n; distinct by request line")
@@ -36,7 +46,38 @@ def prefs_tokens(rng):
     return toks
 
 
+def _fork(rng, label):
+    """own stream for the boundary family: depends on the run's seed, leaves the stream of the older families untouched"""
+    return random.Random(f"{label}:{rng.getstate()[1][:4]}")
+
+
+BOUNDARY_BITS = [65] + [64 * k + d for k in (2, 3, 4, 5, 6, 7) for d in (-1, 0, 1)] + [499, 500]
+
+
+def exact_product(rng, bits, small):
+    """product of the primes `small` and one more prime, of exactly `bits` bits"""
+    m = fc.prod(small)
+    while True:
+        for qb in (bits - m.bit_length(), bits - m.bit_length() + 1):
+            q = gen.rand_prime(rng, qb)
+            if (m * q).bit_length() == bits:
+                return fc.Input(list(small) + [q], "size-boundary")
+
+
+def boundary_cases(rng, tier):
+    """returned lists for inputs at every word boundary up to the 500-bit limit (factors of up to 460 bits)"""
+    for j, bits in enumerate(BOUNDARY_BITS):
+        small = [gen.rand_prime(rng, rng.randint(40, 46))]
+        if j % 3 == 1:
+            small.append(gen.rand_prime(rng, rng.randint(30, 40)))
+        inp = exact_product(rng, bits, small)
+        yield Case(f"factor {inp.n} ecm", k=False, tag=inp.shape, profiles=None if j % 2 else ["release"], timeout=300)
+        if bits % 64 == 0 and bits <= 320:          # Auto above that runs P-1 with bounds that take seconds
+            yield Case(f"factor {inp.n} auto", k=False, tag=inp.shape, profiles=["release"], timeout=400)
+
+
 def cases(tier, rng, extended=False):
+    yield from boundary_cases(_fork(rng, "C01-boundary"), tier)
     quick = tier == "quick"
     count = 600 if quick else 1500
     if extended:
